@@ -7,6 +7,8 @@ From FV.C18 Require Import Model.
 From FV.C18.gen Require Import Tables.
 Import ListNotations.
 Open Scope R_scope.
+(* no sentence of this file may hold the shared Coq build lock for long *)
+Set Default Timeout 240.
 
 Ltac unfold_poly := cbv [select_faces select mapMo nth_error
    poly_faces_tet poly_faces_hex poly_faces_prism poly_faces_pyr permute_tet
